@@ -22,6 +22,7 @@ pub use basic::NoOpCompanion;
 pub use basic::*;
 
 // verification hook: lets an external Kani harness name the settings types that the public
-// `BasicGarnishData::new_with_settings` takes (small heaps, every growth policy). Kani sets `--cfg kani`.
-#[cfg(kani)]
+// `BasicGarnishData::new_with_settings` takes (small heaps, every growth policy). Kani sets `--cfg kani`;
+// the native replay of a counterexample is built with `--cfg garnish_verif`.
+#[cfg(any(kani, garnish_verif))]
 pub use storage::{ReallocationStrategy, StorageBlock, StorageSettings};
